@@ -269,7 +269,7 @@ def gen_sibling(rng, **_):
     return sc
 
 
-def gen_parraise(rng, **_):
+def gen_parraise(rng, idle=False, **_):
     """a parallel_handlers bus on which one handler raises (or returns an exception object) while sibling handlers of the same
     event are mid-flight - sleeping, or awaiting a child on a serial bus whose first of several handlers is running"""
     sc = {'buses': [{'parallel': True, 'maxh': 50, 'wal': False}, {'parallel': rng.random() < 0.2, 'maxh': 50, 'wal': False}],
@@ -296,6 +296,10 @@ def gen_parraise(rng, **_):
         main = [['dispatch', 0, 'A', 0], ['await', 0]]
     if rng.random() < 0.5:
         main += [['dispatch', 0, 'A', 1], ['await', 1]]
+    if idle:
+        # a small history on the parallel bus, later events that evict the first one, then wait_until_idle()
+        sc['buses'][0]['maxh'] = rng.choice([2, 3])
+        main = [['dispatch', 0, 'A', 0]] + [['dispatch', 0, 'B', 1 + j] for j in range(rng.randint(1, 3))] + [['waitidle', 0]]
     sc['tasks'].append(main)
     return sc
 
@@ -359,7 +363,26 @@ def gen_idle(rng, **_):
     return sc
 
 
+def gen_parcancel(rng):
+    """the run-loop task of a parallel_handlers bus is cancelled (as asyncio.run() does at exit) while several handlers of one
+    event are mid-flight. What becomes of the orphaned sibling handler tasks is outside the model: the history is followed up
+    to the cancellation and then only the termination of the run-loop task is observed"""
+    sc = {'buses': [{'parallel': True, 'maxh': 50, 'wal': False}],
+          'types': {t: {'timeout': None} for t in RANK}, 'handlers': [], 'tasks': []}
+    for _ in range(rng.randint(2, 4)):
+        sc['handlers'].append({'bus': 0, 'key': rng.choice(['A', 'A', '*']), 'kind': 'async',
+                               'prog': [['sleep', rng.choice([8 / 64, 16 / 64, 24 / 64])]]})
+    sc['handlers'].append({'bus': 0, 'key': 'A', 'kind': 'async', 'prog': [['sleep', 16 / 64]]})
+    main = [['dispatch', 0, 'A', i] for i in range(rng.randint(1, 3))]
+    main.append(['sleep', rng.choice([1 / 64, 4 / 64, 7 / 64])])
+    main.append(['cancelrl', 0, 'observe'])
+    sc['tasks'].append(main)
+    return sc
+
+
 def gen_stop(rng, p_cancel=0.3, **_):
+    if rng.random() < 0.06:
+        return gen_parcancel(rng)
     """bus 0 is stopped (or its run-loop task cancelled) at a random moment while idle / with a backlog / with a
     handler mid-flight; only the main task dispatches to bus 0 and only before the stop (dispatching to a bus during or
     after stop() is outside the modelled envelope); other buses have awaiting handlers that may drain bus 0's queue"""
